@@ -1,0 +1,26 @@
+//go:build verif
+
+package node
+
+import (
+	"github.com/rigochain/rigo-go/ctrlers/account"
+	"github.com/rigochain/rigo-go/ctrlers/gov"
+	"github.com/rigochain/rigo-go/ctrlers/stake"
+	"github.com/rigochain/rigo-go/ctrlers/vm/evm"
+)
+
+// Read-only access to the controllers for the verification harness.
+
+func (ctrler *RigoApp) VerifAcct() *account.AcctCtrler { return ctrler.acctCtrler }
+func (ctrler *RigoApp) VerifStake() *stake.StakeCtrler { return ctrler.stakeCtrler }
+func (ctrler *RigoApp) VerifGov() *gov.GovCtrler       { return ctrler.govCtrler }
+func (ctrler *RigoApp) VerifEVM() *evm.EVMCtrler       { return ctrler.vmCtrler }
+
+// VerifCloseAll stops the application and also closes the DB handles Stop() leaves open.
+func (ctrler *RigoApp) VerifCloseAll() error {
+	err := ctrler.Stop()
+	ctrler.stakeCtrler.VerifCloseRest()
+	ctrler.govCtrler.VerifCloseRest()
+	ctrler.vmCtrler.VerifCloseRest()
+	return err
+}
